@@ -120,12 +120,23 @@ def proof_leg(pid: str, extra_modules=(), leanchecker=False) -> Proof:
         pr.errors.append(f'missing {prop_file}')
         return pr
     pr.theorems = theorem_names(prop_file)
+    # tie theorems (model definition = closed form re-derived from the source text by harness/py2lean.py)
+    tie_modules = []
+    try:
+        import py2lean
+        for module, prefix in py2lean.TIE.get(pid, []):
+            names = [t for t in theorem_names(LEAN / 'Homonim' / 'Props' / f'{module}.lean') if t.split('.')[-1].startswith(prefix)]
+            pr.theorems += [t for t in names if t not in pr.theorems]
+            if f'Homonim.Props.{module}' not in tie_modules:
+                tie_modules.append(f'Homonim.Props.{module}')
+    except Exception as ex:  # pragma: no cover
+        pr.errors.append(f'tie theorems: {ex}')
     # forbidden tokens anywhere in the Lean sources (comments stripped)
     for f in sorted(LEAN.glob('Homonim/**/*.lean')) + [LEAN / 'Main.lean']:
         if f.exists():
             for m in FORBIDDEN.finditer(strip_lean_comments(f.read_text())):
                 pr.forbidden.append(f'{f.relative_to(LEAN)}: {m.group(0).strip()}')
-    targets = [f'Homonim.Props.{pid}'] + list(extra_modules)
+    targets = [f'Homonim.Props.{pid}'] + tie_modules + list(extra_modules)
     with build_lock():
         r = lake(['build'] + targets)
     if r.returncode != 0:
@@ -135,7 +146,8 @@ def proof_leg(pid: str, extra_modules=(), leanchecker=False) -> Proof:
     audit_dir = LEAN / '.lake' / 'audit'
     audit_dir.mkdir(parents=True, exist_ok=True)
     audit = audit_dir / f'{pid}.lean'
-    audit.write_text(f'import Homonim.Props.{pid}\n' + ''.join(f'#print axioms {t}\n' for t in pr.theorems))
+    audit.write_text(f'import Homonim.Props.{pid}\n' + ''.join(f'import {m}\n' for m in tie_modules) +
+                     ''.join(f'#print axioms {t}\n' for t in pr.theorems))
     r = lake(['env', 'lean', str(audit)])
     out = r.stdout + r.stderr
     for m in re.finditer(r"^'(.+?)' depends on axioms: \[([^\]]*)\]", out, re.M):
